@@ -448,6 +448,24 @@ func (ex *Exec) applyContract(fr *Frame, st *State, fc *FuncContract, fn *ssa.Fu
 		}
 		ex.assume(st.PC, c)
 	}
+	for _, e := range fc.AssumedEnsures {
+		c, err := post.evalBool(e.Expr)
+		if err != nil {
+			ex.contractProblem("%s: ensures_assumed of %s: %v", e.Pos, fc.Name, err)
+			continue
+		}
+		ex.assume(st.PC, c)
+		msg := fmt.Sprintf("%s: assumed postcondition %s -- %s", fc.Name, e.Expr.String(), e.Label)
+		dup := false
+		for _, a := range ex.assumedClauses {
+			if a == msg {
+				dup = true
+			}
+		}
+		if !dup {
+			ex.assumedClauses = append(ex.assumedClauses, msg)
+		}
+	}
 	return res
 }
 
